@@ -192,6 +192,9 @@ func checkC01(ctx *core.Ctx, ti int, t *rt.Table, router, entry string, req *rt.
 			ctx.Violation(ti, "c01:selected-path", fmt.Sprintf("SelectedRoutePath()=%q, route declared %q", iv.SelPath, wantPath), doc("selected"))
 		}
 		for _, se := range out.Obs.Sels {
+			if strings.HasPrefix(se.Where, "route:") && se.Where != fmt.Sprintf("route:%d", rs.ID) {
+				ctx.Violation(ti, "c01:foreign-route-filter", fmt.Sprintf("filter %s ran for a request handled by route %d", se.Where, rs.ID), doc("selected"))
+			}
 			if se.RID != rs.ID {
 				ctx.Violation(ti, "c01:selected-filter", fmt.Sprintf("%s filter saw selected route %d while route %d ran", se.Where, se.RID, rs.ID), doc("selected"))
 			}
